@@ -403,8 +403,6 @@ def _als_setup(U, st, adaptive, with_cb, with_w, with_u):
                nswp=S.opt_int('nswp'), e=S.opt_real('e'), e_vld=S.opt_real('e_vld'), I_vld=C.opt_arr('I_vld'), y_vld=C.opt_arr('y_vld'),
                lamb=S.opt_real('lamb'), skip=z3.Bool('allow_skip_cores'), update_sol=True if with_u else NONE,
                info=st.alloc(VRec({'rearrange': VOpaque('stale key of an earlier call')})))
-    cb_log = []
-
     def cb_handler(ex, s, args, kwargs, node):
         # A-CB: the callback neither writes nor retains its arguments; it returns an arbitrary value
         r_ = ex.fresh_bool('cb_is_True')
@@ -927,7 +925,7 @@ def _adaptive_unit(U, ltr, cache_kind, with_w):
 
 for _ltr, _ck, _w in ((True, 'empty', False), (True, 'i1', True), (False, 'empty', True), (False, 'i2', False), (True, 'none', False)):
     def _mk(ltr=_ltr, ck=_ck, w=_w):
-        @unit(f'als._optimize_core_adaptive.shapes.{"ltr" if ltr else "rtl"}.{ck}', props=('C07',))
+        @unit(f'als._optimize_core_adaptive.shapes.{"ltr" if ltr else "rtl"}.{ck}', props=('C07', 'C10', 'C11'))
         def u_(U):
             _adaptive_unit(U, ltr, ck, w)
     _mk()
@@ -1060,7 +1058,6 @@ def _als_adaptive_unit(U, with_cb):
                       and c['kw']['ltr'] is ltr and c['kw']['allow_swap'] is NONE))
         ob('the-index-table-cache-is-chained-from-the-previous-step',
            z3.BoolVal(c['cache_oid'] == b0['cache'] and set(c['cache_before']) == ({'i1'} if ltr else {'i2'})))
-        ret = s.ghost.get('ad_rets')
         ob('only-the-two-cores-of-the-step-are-replaced',
            z3.ForAll([t_], z3.Implies(z3.And(t_ != a, t_ != b), Y.arr[t_] == b0['Y'][t_]), patterns=[Y.arr[t_]]))
         ev = cts[0]
@@ -1613,7 +1610,7 @@ def _func_sweeps_unit(U):
     U.post('a-return-site-is-reached', U.pre, z3.BoolVal(nret >= 1))
 
 
-@unit('als_func.als_func.sweeps', props=('C07',))
+@unit('als_func.als_func.sweeps', props=('C07', 'C11'))
 def u_als_func_sweeps(U):
     _func_sweeps_unit(U)
 
